@@ -43,6 +43,7 @@ class _P:
         self.d = data
         self.i = 0
         self.gray = None
+        self.uint64_ok = False
 
     def ws(self):
         d, n = self.d, len(self.d)
@@ -165,7 +166,7 @@ class _P:
         text = d[start:self.i].decode("ascii")
         if not isfloat:
             v = int(text)
-            if not (-(1 << 63) <= v < (1 << 63)):
+            if not (-(1 << 63) <= v < (1 << (64 if self.uint64_ok else 63))):
                 self.gray = "integer outside int64"
             return v
         v = float(text)
@@ -243,11 +244,13 @@ class _P:
         return v
 
 
-def parse_stream(data: bytes) -> Result:
+def parse_stream(data: bytes, uint64_ok=False) -> Result:
+    """uint64_ok: integers up to 2**64 - 1 are in the domain (the output side writes uint64 arrays)"""
     z = data.find(b"\x00")
     if z >= 0:
         data = data[:z]
     p = _P(data)
+    p.uint64_ok = uint64_ok
     docs = []
     try:
         while True:
